@@ -602,7 +602,7 @@ def run(prop: str, tier: str) -> int:
         v.add_tlc(res, cfg + " (" + label + ")")
         if res.violated:
             v.violation(f"TLC: {res.violated} violated in the system model ({cfg})", {"kind": "tlc", "cfg": cfg, "tail": res.stdout[-3000:]})
-    a = tlc.require_ok(tlc.run_tlc("System", "MC_System_asis.cfg", timeout=900), "system as-is self-test")
+    a = tlc.require_ok(tlc.run_tlc("System", "MC_System_asis.cfg", timeout=2400), "system as-is self-test")
     v.notes["asis_selftest"] = {"BlobFilter=FALSE violates": a.violated}
     if a.violated != "Converged":
         raise tlc.MachineryError(f"self-test: the unfiltered BLOB connection should violate Converged, got {a.violated}")
